@@ -7,6 +7,7 @@ package main
 import (
 	"fmt"
 	"math"
+	"reflect"
 	"strings"
 	"unicode/utf8"
 )
@@ -92,6 +93,9 @@ func (r *Rng) ListVal(c *GenCfg, depth int) []interface{} {
 	}
 	l := make([]interface{}, 0, n)
 	kind := r.Intn(3) // 0 scalars, 1 maps, 2 mixed
+	if kind == 1 && n >= 2 && n <= 32 && r.P(35) {
+		return r.variantList(c, depth, n)
+	}
 	for i := 0; i < n; i++ {
 		switch {
 		case kind == 0 || (kind == 2 && r.Bool()):
@@ -111,9 +115,172 @@ func (r *Rng) ListVal(c *GenCfg, depth int) []interface{} {
 	return l
 }
 
+// variantList is the record-list shape of real documents: n members cut from one template, each
+// with a few local differences (a key missing, a sub-tree replaced by a scalar, an empty list or
+// map, or by something else), so that members share keys but not what lies below them.
+func (r *Rng) variantList(c *GenCfg, depth int, n int) []interface{} {
+	var tmpl map[string]interface{}
+	for try := 0; try < 4; try++ {
+		tmpl = r.MapVal(c, depth+1)
+		if len(tmpl) > 0 {
+			break
+		}
+	}
+	l := make([]interface{}, 0, n)
+	for i := 0; i < n; i++ {
+		mem := deepCopy(tmpl).(map[string]interface{})
+		x := r.Intn(3)
+		if i == 0 && x == 0 {
+			x = 1 + r.Intn(2) // the first member always differs (first-match shortcuts stop there)
+		}
+		for ; x > 0; x-- {
+			r.mutateAt(c, mem, depth+1)
+		}
+		l = append(l, mem)
+	}
+	return l
+}
+
+// mutateAt walks down existing keys for a random number of steps and changes what it finds there.
+func (r *Rng) mutateAt(c *GenCfg, m map[string]interface{}, depth int) {
+	for {
+		ks := sortedKeys(m)
+		if len(ks) == 0 {
+			m[r.Key(c)] = r.Scalar(c)
+			return
+		}
+		k := ks[r.Intn(len(ks))]
+		if sub, ok := m[k].(map[string]interface{}); ok && r.P(60) {
+			m = sub
+			depth++
+			continue
+		}
+		if sub, ok := m[k].([]interface{}); ok && len(sub) > 0 && r.P(50) {
+			if mm, ok := sub[r.Intn(len(sub))].(map[string]interface{}); ok {
+				m = mm
+				depth++
+				continue
+			}
+		}
+		switch r.Intn(6) {
+		case 0:
+			delete(m, k)
+		case 1:
+			m[k] = r.Scalar(c)
+		case 2:
+			if c.EmptyList {
+				m[k] = []interface{}{}
+			} else {
+				m[k] = map[string]interface{}{}
+			}
+		case 3:
+			m[k] = map[string]interface{}{}
+		case 4:
+			m[k] = r.Value(c, depth, false)
+		default:
+			m[r.Key(c)] = r.Value(c, depth, false)
+		}
+		return
+	}
+}
+
+// chainDoc builds a Map around ONE path: the keys of the path lead down a chain of maps in which any
+// level may be a list of alternatives; inside a list each member follows the chain to a different
+// depth - it ends early (key missing, scalar, null, empty map or list) or reaches a final value.
+// So first, middle and last members differ in how far the path gets with them.
+func (r *Rng) chainDoc(c *GenCfg) (map[string]interface{}, string) {
+	n := 2 + r.Intn(4)
+	keys := make([]string, n)
+	for i := range keys {
+		keys[i] = r.Pick(c.Keys)
+	}
+	var node func(i int, inList bool) interface{}
+	deadEnd := func(i int) interface{} {
+		switch r.Intn(6) {
+		case 0:
+			return r.Scalar(c)
+		case 1:
+			return map[string]interface{}{}
+		case 2:
+			if c.EmptyList {
+				return []interface{}{}
+			}
+			return "end"
+		case 3:
+			if c.Nulls {
+				return nil
+			}
+			return "end"
+		default:
+			// a map that lacks the next key but has others (possibly later keys of the path)
+			m := map[string]interface{}{"other": r.Scalar(c)}
+			if i+1 < n && r.Bool() {
+				m[keys[i+1]] = r.Scalar(c)
+			}
+			return m
+		}
+	}
+	node = func(i int, inList bool) interface{} {
+		if i == n {
+			switch r.Intn(5) {
+			case 0:
+				return []interface{}{r.Scalar(c), r.Scalar(c)}
+			case 1:
+				return map[string]interface{}{"leaf": r.Scalar(c)}
+			case 2:
+				if c.EmptyList {
+					return []interface{}{}
+				}
+				return "v"
+			default:
+				return r.Scalar(c)
+			}
+		}
+		if !inList && i > 0 && r.P(35) {
+			k := 2 + r.Intn(3)
+			l := make([]interface{}, 0, k)
+			for j := 0; j < k; j++ {
+				switch {
+				case r.P(40):
+					l = append(l, deadEnd(i-1))
+				case r.P(10):
+					l = append(l, r.Scalar(c))
+				default:
+					l = append(l, node(i, true))
+				}
+			}
+			return l
+		}
+		if i > 0 && !inList && r.P(8) {
+			return deadEnd(i - 1)
+		}
+		m := map[string]interface{}{keys[i]: node(i+1, false)}
+		if r.P(30) {
+			m[r.Pick(c.Keys)] = r.Scalar(c)
+		}
+		return m
+	}
+	root, _ := node(0, false).(map[string]interface{})
+	if root == nil {
+		root = map[string]interface{}{keys[0]: "x"}
+	}
+	return root, strings.Join(keys, ".")
+}
+
 // RootMap generates a non-trivial top-level Map; about one in seventy gets one LARGE part
 // (sizes beyond the usual buffer and capacity thresholds).
 func (r *Rng) RootMap(c *GenCfg) map[string]interface{} {
+	if r.P(8) {
+		m, p := r.chainDoc(c)
+		// some unrelated siblings at the top
+		for x := r.Intn(3); x > 0; x-- {
+			if k := r.Key(c); k != strings.Split(p, ".")[0] {
+				m[k] = r.Value(c, 1, false)
+			}
+		}
+		r.chainMap, r.chainPath = m, p
+		return m
+	}
 	for {
 		m := r.MapVal(c, 0)
 		if len(m) > 0 {
@@ -182,6 +349,18 @@ func (r *Rng) enlarge(m map[string]interface{}, c *GenCfg) {
 // DerivedPath follows the Map: existing key 70%, wildcard 10%, index 10%, absent key 10%.
 // allowIdx permits indexed steps (only on non-wildcard steps).
 func (r *Rng) DerivedPath(m map[string]interface{}, allowIdx bool, maxLen int) string {
+	if r.chainMap != nil && r.chainPath != "" && len(m) > 0 && sameMap(m, r.chainMap) && r.Bool() {
+		segs := strings.Split(r.chainPath, ".")
+		switch x := r.Intn(len(segs)); r.Intn(4) {
+		case 0:
+			segs[x] = "*"
+		case 1:
+			if allowIdx {
+				segs[x] = fmt.Sprintf("%s[%d]", segs[x], r.Intn(3))
+			}
+		}
+		return strings.Join(segs, ".")
+	}
 	var segs []string
 	var cur interface{} = m
 	n := 1 + r.Intn(maxLen)
@@ -198,7 +377,11 @@ func (r *Rng) DerivedPath(m map[string]interface{}, allowIdx bool, maxLen int) s
 				empty = true
 				break
 			}
-			cur = l[r.Intn(len(l))]
+			if r.Bool() {
+				cur = l[len(l)-1] // as often as not what only a LATER member has
+			} else {
+				cur = l[r.Intn(len(l))]
+			}
 		}
 		if empty {
 			break
@@ -271,4 +454,8 @@ func sortedKeys(m map[string]interface{}) []string {
 	}
 	sortStrings(ks)
 	return ks
+}
+
+func sameMap(a, b map[string]interface{}) bool {
+	return reflect.ValueOf(a).Pointer() == reflect.ValueOf(b).Pointer()
 }
